@@ -49,6 +49,9 @@ func RunLatch(seed int64, dur time.Duration) (out []Ev) {
 	P.CreateColumn("a", column.ForInt64())
 	P.CreateColumn("b", column.ForInt32())
 	P.CreateColumn("s", column.ForString())
+	// a bool column written together with the triple (f = k is odd): bool columns and bitmap indexes keep ONE bitmap for all
+	// blocks, which is reallocated when the collection grows - beside commits that hold another block's latch
+	P.CreateColumn("f", column.ForBool())
 	P.CreateIndex("pos", "a", func(r column.Reader) bool { return r.Int() >= 0 })
 	P.CreateSortIndex("byS", "s")
 	// rows in two blocks: the last rows of block 0 and the first of block 1
@@ -75,7 +78,22 @@ func RunLatch(seed int64, dur time.Duration) (out []Ev) {
 		r.SetInt64("a", k)
 		r.SetInt32("b", int32(2*k))
 		r.SetString("s", "v"+strconv.FormatInt(k, 10))
+		r.SetBool("f", k%2 == 1)
 	}
+	// the collection grows meanwhile: a block of value-less rows every few tens of milliseconds (every new block grows every column)
+	wg.Add(1)
+	go func() {
+		defer wg.Done()
+		for n := 0; n < 30 && atomic.LoadInt32(&stop) == 0; n++ {
+			P.Query(func(txn *column.Txn) error {
+				for i := 0; i < 16384; i++ {
+					txn.Insert(func(column.Row) error { return nil })
+				}
+				return nil
+			})
+			time.Sleep(time.Duration(20+n) * time.Millisecond)
+		}
+	}()
 	for g := 0; g < 5; g++ {
 		wg.Add(1)
 		lr := rand.New(rand.NewSource(seed*31 + int64(g)))
@@ -129,6 +147,14 @@ func RunLatch(seed int64, dur time.Duration) (out []Ev) {
 		}
 		return n
 	}
+	// the bool read in the same callback is bound into the witness: a triple whose flag is not the one written with it is
+	// reported with a second component no version has (latched readers only: Ascend readers run without the latch as built)
+	bound := func(a int64, b int32, f bool) int32 {
+		if f != (a%2 == 1) {
+			return -1 - b
+		}
+		return b
+	}
 	for g := 0; g < 13; g++ {
 		wg.Add(1)
 		how := []string{"queryat", "range", "filtered", "queryat", "range", "filtered", "queryat", "range", "filtered", "ascend", "ascend", "nested", "nested"}[g]
@@ -159,7 +185,8 @@ func RunLatch(seed int64, dur time.Duration) (out []Ev) {
 						a, _ := r.Int64("a")
 						b, _ := r.Int32("b")
 						s, _ := r.String("s")
-						note(o, a, b, s)
+						f := r.Bool("f")
+						note(o, a, bound(a, b, f), s)
 						return nil
 					})
 				case "nested":
@@ -178,7 +205,8 @@ func RunLatch(seed int64, dur time.Duration) (out []Ev) {
 									a, _ := r.Int64("a")
 									b, _ := r.Int32("b")
 									s, _ := r.String("s")
-									note(o, a, b, s)
+									f := r.Bool("f")
+									note(o, a, bound(a, b, f), s)
 									return nil
 								})
 							}
@@ -205,12 +233,12 @@ func RunLatch(seed int64, dur time.Duration) (out []Ev) {
 						} else {
 							txn.With("a")
 						}
-						ca, cb, cs := txn.Int64("a"), txn.Int32("b"), txn.String("s")
+						ca, cb, cs, cf := txn.Int64("a"), txn.Int32("b"), txn.String("s"), txn.Bool("f")
 						txn.Range(func(idx uint32) {
 							a, _ := ca.Get()
 							b, _ := cb.Get()
 							s, _ := cs.Get()
-							note(idx, a, b, s)
+							note(idx, a, bound(a, b, cf.Get()), s)
 						})
 						return nil
 					})
